@@ -1,1 +1,2 @@
 import SfProps.C20
+import SfProps.C02
